@@ -172,6 +172,40 @@ fn fault_space(ctx: &mut Ctx, s: &Sample, p: &mut Prng, other: &Sample, small_s:
     if s.id.is_some() && s.id_str != DEFAULT_ID {
         probe(ctx, s, &s.lpk, &s.pk, None, DEFAULT_ID, &s.msg, &s.sig, "id_default_instead", false);
     }
+    // another ID of the SAME length (16 bytes like the default ID, and the signer's own length): ENTL alone does not
+    // identify the signer
+    {
+        let same_len: String = s.id_str.chars().map(|ch| if ch == 'x' { 'y' } else { 'x' }).collect();
+        if same_len.len() == s.id_str.len() && !same_len.is_empty() {
+            probe(ctx, s, &s.lpk, &s.pk, Some(leak(same_len.clone())), &same_len, &s.msg, &s.sig, "id_changed_same_length", false);
+        }
+        if s.id_str == DEFAULT_ID {
+            for alt in ["ABCDEFGHabcdefgh", "1234567812345679", "8765432187654321"] {
+                probe(ctx, s, &s.lpk, &s.pk, Some(alt), alt, &s.msg, &s.sig, "id_changed_same_length", false);
+            }
+        }
+    }
+    // the valid (r, s) in another encoding (DER SEQUENCE of two INTEGERs, ASCII hex, padded): none of them is exactly
+    // r||s in 64 bytes, so each must be rejected
+    {
+        let der = [crate::refs::der::int_from_be(&s.sig[..32]), crate::refs::der::int_from_be(&s.sig[32..])].concat();
+        let der = crate::refs::der::tlv(0x30, &der);
+        let hexs = hex::encode(&s.sig).into_bytes();
+        let alts: Vec<(&str, Vec<u8>)> = vec![
+            ("der_sequence", der),
+            ("ascii_hex", hexs),
+            ("zero_prefixed", [&[0u8][..], &s.sig[..]].concat()),
+            ("zero_suffixed", [&s.sig[..], &[0u8][..]].concat()),
+            ("tag_04_prefixed", [&[4u8][..], &s.sig[..]].concat()),
+            ("r_s_each_33_bytes", [&[0u8][..], &s.sig[..32], &[0u8][..], &s.sig[32..]].concat()),
+        ];
+        for (nm, a) in alts {
+            if a.len() != 64 {
+                probe(ctx, s, &s.lpk, &s.pk, s.id, &s.id_str, &s.msg, &a, &format!("alt_encoding:{}", nm), true);
+                ctx.class("alt_encoding_of_valid_signature");
+            }
+        }
+    }
     // other public key
     probe(ctx, s, &other.lpk, &other.pk, s.id, &s.id_str, &s.msg, &s.sig, "key_changed", false);
     let negpk = r2::neg(&Some(s.pk.clone())).unwrap();
@@ -212,7 +246,7 @@ pub fn run(ctx: &mut Ctx) {
     for (n, ok) in r2::selftest() {
         ctx.selftest(&n, ok);
     }
-    ctx.require(&["valid_accepted", "bitflip_r", "bitflip_s", "r=0", "s=0", "r=n", "s=n", "s=n+1", "r=2^256-1", "s=2^256-1", "s=n-r", "sG+tP=infinity", "swapped_r_s", "s+n", "s_plus_n_alias", "msg_extended", "msg_bitflip", "id_changed", "key_changed", "len<64", "len>64", "random_pair", "openssl_made", "digest:t=0_equation_satisfied", "digest:valid", "digest:bitflip", "near_miss_r_consistent_s"]);
+    ctx.require(&["valid_accepted", "bitflip_r", "bitflip_s", "r=0", "s=0", "r=n", "s=n", "s=n+1", "r=2^256-1", "s=2^256-1", "s=n-r", "sG+tP=infinity", "swapped_r_s", "s+n", "s_plus_n_alias", "msg_extended", "msg_bitflip", "id_changed", "key_changed", "len<64", "len>64", "random_pair", "openssl_made", "digest:t=0_equation_satisfied", "digest:valid", "digest:bitflip", "near_miss_r_consistent_s", "id_changed_same_length", "alt_encoding_of_valid_signature"]);
     let c = r2::curve();
     // --- digest level (hook `verif_verify_digest`): clauses no message can be made to reach. (a) t = r + s = 0 mod n with
     // e chosen so that the remaining equation holds (a verifier without the t check accepts); (b) valid and tampered
